@@ -2,7 +2,7 @@
    (evaluated on the models), so none of them holds vacuously. *)
 From ZV.Common Require Import Base Run.
 From Coq Require Import Sorting.Sorted Sorting.Permutation.
-From ZV.C11 Require Import Model ModelMsd ModelAdv ModelPar ModelSkip ModelMultipass ModelFunnel ModelKv ModelCases ProofsSpec.
+From ZV.C11 Require Import Model ModelMsd ModelAdv ModelPar ModelSkip ModelMultipass ModelFunnel ModelKv ModelCoAware ModelCases ProofsSpec.
 Open Scope N_scope.
 
 Ltac sorted_by_eval := apply sortedb_Sorted; vm_compute; reflexivity.
@@ -137,3 +137,29 @@ Example sort_bytes_depth_inhabited :
   sort_bytes_levels false [[9; 9; 9; 9; 9; 2]; [9; 9; 9; 9; 9; 1]; [9; 9; 9; 9; 9]] = 6%nat /\
   sort_bytes [[9; 9; 9; 9; 9; 2]; [9; 9; 9; 9; 9; 1]; [9; 9; 9; 9; 9]] = [[9; 9; 9; 9; 9]; [9; 9; 9; 9; 9; 1]; [9; 9; 9; 9; 9; 2]].
 Proof. repeat split; vm_compute; reflexivity. Qed.
+
+(* quicksort / merge sort / the strategy selection *)
+Example co_full_sort_inhabited :
+  partition [5; 1; 7; 2; 9; 0; 4] = ([1; 2; 0], 4, [9; 7; 5]) /\
+  partition_arr [5; 1; 7; 2; 9; 0; 4] = ([1; 2; 0; 4; 9; 7; 5], 3%nat) /\
+  quicksort [5; 1; 7; 2; 9; 0; 4; 4; 18446744073709551615] = [0; 1; 2; 4; 4; 5; 7; 9; 18446744073709551615] /\
+  mergesort [5; 1; 7; 2; 9; 0; 4; 4] = [0; 1; 2; 4; 4; 5; 7; 9] /\
+  (* 20 elements of 8 bytes: L1 of 64 bytes is too small, L2 of 1024 holds them -> quicksort via hybrid (L3 of 128) *)
+  co_full_sort 2 8 64 1024 128 64 [19; 3; 17; 1; 15; 5; 13; 7; 11; 9; 10; 8; 12; 6; 14; 4; 16; 2; 18; 0]
+    = [0; 1; 2; 3; 4; 5; 6; 7; 8; 9; 10; 11; 12; 13; 14; 15; 16; 17; 18; 19].
+Proof. repeat split; vm_compute; reflexivity. Qed.
+
+(* test (not a theorem about all inputs): on every non-empty list of length <= 6 over {0,1,2} the segment
+   representation of the partition loop is the array the swap-by-swap loop leaves *)
+Fixpoint all_lists (n : nat) : list (list N) :=
+  match n with
+  | O => [[]]
+  | S n' => flat_map (fun l => [0 :: l; 1 :: l; 2 :: l]) (all_lists n')
+  end.
+Definition partition_agrees (l : list N) : bool :=
+  let '(s, p, g) := partition l in
+  let '(arr, i) := partition_arr l in
+  eqb_ln arr (s ++ p :: g) && Nat.eqb i (length s).
+Example partition_matches_array_code_small :
+  forallb (fun n => forallb partition_agrees (all_lists n)) [1; 2; 3; 4; 5; 6]%nat = true.
+Proof. vm_compute. reflexivity. Qed.
